@@ -119,11 +119,44 @@ class TseitinTransformation:
     def goal2intcnf(self, goal: z3.Goal) -> list[list[int]]:
         cnf = []
         for expr in goal:
-            if z3.is_or(expr):
-                cnf.append([self.expr_to_signed_id(x) for x in expr.children()])
+            literals = expr.children() if z3.is_or(expr) else [expr]
+            clause = []
+            satisfied = False
+            for literal in literals:
+                value = self.constant_value(literal)
+                if value is None:
+                    clause.append(self.expr_to_signed_id(literal))
+                elif value:
+                    satisfied = True
+            if satisfied:
+                continue
+            if clause:
+                cnf.append(clause)
             else:
-                cnf.append([self.expr_to_signed_id(expr)])
+                # constantly false clause: RC2 cannot take an empty soft clause, so
+                # encode it as a contradictory pair of units over a reserved variable
+                pool = cast(IDPool, self.epistemic_state["pool"])  # type: ignore[assignment]
+                false_id = pool.id("__false__")
+                cnf.append([false_id])
+                cnf.append([-false_id])
         return cnf
+
+    """
+    Truth value of a literal built from the constants True/False (which the tseitin-cnf
+    tactic leaves in its output), None for every other literal
+    """
+
+    @staticmethod
+    def constant_value(literal: z3.ExprRef) -> bool | None:
+        negated = False
+        while z3.is_not(literal):
+            negated = not negated
+            literal = literal.children()[0]
+        if z3.is_true(literal):
+            return not negated
+        if z3.is_false(literal):
+            return negated
+        return None
 
     """
     Takes z3 expression and creates or retrieves unique ID of expression using pysat.formula.IDPool
